@@ -809,6 +809,8 @@ class Unit:
         except Unsupported: dt = ''
         if dt and self.models and self.models.is_model_type(dt.replace('*', '').strip()):
             return inner        # model types have no base-class layout: the conversion is the identity
+        if dt and not dt.replace('const ', '').strip().startswith('struct ') and dt.replace('const ', '').strip() not in ('', 'void'):
+            return inner        # a library class modelled as a scalar (opaque iterator): no layout either
         if any(dt.replace('*', '').strip() == oc for oc in self.opaque_records.values()):
             # opaque records have no layout here: a derived-to-base conversion is a plain pointer cast
             bt = self.resolve_named(path[-1]['name']) if path else None
@@ -1895,6 +1897,9 @@ class Unit:
             ids = self.select(q, sig)
             if not ids: raise Unsupported('selector %s%s matches no function in the AST dump' % (q, ' [%s]' % sig if sig else ''))
             for cid in ids: self.need_func(cid)
+        for rname in self.spec.get(('need_records',), []):
+            # record types that only the contracts mention (so that a changed body that no longer uses them still compiles against the spec)
+            if self.resolve_named(rname) is None: raise Unsupported('record %s named by the spec is not in the AST dump' % rname)
         for gname in self.spec.get(('need_globals',), []):
             # globals that only the contracts mention (the function bodies that use them are replaced by contracts in this unit)
             vids = [i for i, x in self.by_id.items() if x.get('kind') == 'VarDecl' and self.qname.get(i) == gname]
